@@ -280,7 +280,16 @@ type Violation struct {
 	Expected string          `json:"expected"`
 	Observed string          `json:"observed"`
 	Note     string          `json:"note,omitempty"`
+	// where the case was met: shard Shard of NShards of tier Tier. NeedsHistory: the case alone does not show the
+	// violation in a fresh process, re-running the shard up to it does (state left behind by the earlier cases).
+	Shard        int    `json:"shard"`
+	NShards      int    `json:"of,omitempty"`
+	Tier         string `json:"tier,omitempty"`
+	NeedsHistory bool   `json:"needs_history,omitempty"`
 }
+
+// exitHistoryReproduced: a worker started with VERIF_STOP_AT_SIG met that signature.
+const exitHistoryReproduced = 11
 
 type WorkerResult struct {
 	Shard       int              `json:"shard"`
@@ -379,6 +388,14 @@ func (c *Ctx) Trace(v any) {
 // Report records a violation; the simplest one per signature is kept.
 func (c *Ctx) Report(sig string, order int64, cs any, expected, observed, note string) {
 	c.res.VioCount++
+	if stop := os.Getenv("VERIF_STOP_AT_SIG"); stop != "" && stop == sig {
+		raw, _ := json.Marshal(cs)
+		fmt.Printf("property=%s\nshard=%d/%d tier=%s\ncase=%s\nexpected=%s\nobserved=%s\nsignature=%s\nREPRODUCED (after the earlier cases of the shard)\n", c.Prop, c.Shard, c.NShards, c.Tier, string(raw), expected, observed, sig)
+		if os.Getenv("VERIF_STOP_EXIT1") != "" {
+			os.Exit(1) // under `replay`: 1 = reproduced
+		}
+		os.Exit(exitHistoryReproduced)
+	}
 	if old, ok := c.vios[sig]; ok && old.Order <= order {
 		return
 	}
@@ -401,7 +418,9 @@ func (c *Ctx) finish() WorkerResult {
 	}
 	sort.Strings(keys)
 	for _, k := range keys {
-		c.res.Violations = append(c.res.Violations, *c.vios[k])
+		v := *c.vios[k]
+		v.Shard, v.NShards, v.Tier = c.Shard, c.NShards, c.Tier
+		c.res.Violations = append(c.res.Violations, v)
 	}
 	return c.res
 }
